@@ -1,7 +1,7 @@
 (* C08/Examples.v — non-vacuity: concrete values through the models. *)
 From Coq Require Import List NArith ZArith Bool Lia.
 From Common Require Import Bytes Outcome.
-From C08 Require Import Model ModelCD ModelLL ModelSub ModelSub2 ModelFL ModelGDEF.
+From C08 Require Import Model ModelCD ModelLL ModelSub ModelSub2 ModelFL ModelGDEF ModelSL.
 Import ListNotations.
 Local Open Scope N_scope.
 
@@ -178,3 +178,20 @@ Example gdef_example :
   | _ => False
   end.
 Proof. vm_compute. split; reflexivity. Qed.
+
+(* ---- script list ---- *)
+Definition latn := [108; 97; 116; 110].
+Definition eng := [69; 78; 71; 32].
+Definition sl1 : list script_entry := [((latn, Some (65535, [0; 2])), [(eng, (1, [3]))])].
+Example scriptlist_example :
+  match M_sl_encode sl1 with
+  | Ok b => M_sl_read (fun _ _ => true) b 0 =
+              Ok [((latn, []), (65535, [0; 2])); ((latn, eng), (1, [3]))] /\ lenN b = 2 + 6 + 4 + 6 + 10 + 8
+  | _ => False
+  end.
+Proof. vm_compute. split; reflexivity. Qed.
+Example scriptlist_hyps : Forall (entry_rd_ok (fun _ _ => true)) sl1 /\ total_work sl1 <= maxWork.
+Proof.
+  split; [|vm_compute; discriminate].
+  repeat constructor; cbn; try lia; repeat constructor; cbn; lia.
+Qed.
